@@ -170,22 +170,15 @@ Judged(q, c, k, lv) ==
 -----------------------------------------------------------------------------
 (* Index walks *)
 
-RECURSIVE SortedSeqs(_, _)
-SortedSeqs(S, v) ==
-  IF S = {} THEN {<<>>}
-  ELSE LET m == {k \in S : \A j \in S : v[k] <= v[j]}
-       IN UNION {{<<k>> \o s : s \in SortedSeqs(S \ {k}, v)} : k \in m}
-
-\* keys a walk over index x meets: filed there and not removed by a claim in progress
 \* (local = the claim is index-local: it only sees what was removed from its own beacon and only takes that beacon's lock)
 Members(x, local) ==
   LET filed == IF x \in ExpIdx THEN {k \in Keys : ix[k] # 0} ELSE {k \in Keys : rec[k].live}
   IN IF local THEN {k \in filed : x \notin held[k]} ELSE {k \in filed : held[k] = {}}
 
-WalkOrders(q, local) ==
-  LET x == IdxOf(q)
-      v == [k \in Keys |-> LET a == IF x \in ExpIdx THEN ix[k] ELSE k IN IF DescOf(q) THEN 0 - a ELSE a]
-  IN SortedSeqs(Members(x, local), v)
+\* The walk meets the members in index order; ties (equal expiry) in any order. walk[c] is the SET of members not yet
+\* visited, the next one visited is any of those with the smallest index value (largest for a descending walk).
+IdxVal(q, k) == LET a == IF IdxOf(q) \in ExpIdx THEN ix[k] ELSE k IN IF DescOf(q) THEN 0 - a ELSE a
+NextOf(q, W) == {k \in W : \A j \in W : IdxVal(q, k) <= IdxVal(q, j)}
 
 LocksOf(q, local) == IF local THEN {IdxOf(q)} ELSE Idx
 
@@ -195,7 +188,7 @@ Init ==
   /\ rec = [k \in Keys |-> Dead] /\ ix = [k \in Keys |-> 0] /\ held = [k \in Keys |-> {}]
   /\ lock = [x \in Idx |-> ""]
   /\ pc = [p \in Procs |-> "idle"] /\ req = [p \in Procs |-> NoReq]
-  /\ cand = [p \in Procs |-> {}] /\ walk = [p \in Procs |-> <<>>] /\ res = [p \in Procs |-> <<>>]
+  /\ cand = [p \in Procs |-> {}] /\ walk = [p \in Procs |-> {}] /\ res = [p \in Procs |-> <<>>]
   /\ todo = [p \in Procs |-> <<>>] /\ out = [p \in Procs |-> <<>>]
   /\ owner = [k \in Keys |-> ""] /\ alive = {} /\ bad = {} /\ used = {} /\ nops = 0
 
@@ -220,28 +213,31 @@ BuildPredicate(c) ==
   /\ pc' = [pc EXCEPT ![c] = "lock"]
   /\ UNCHANGED <<mode, rec, ix, held, lock, req, walk, res, todo, out, owner, alive, bad, used, nops>>
 
+Missed(c) == IF IdxOf(req[c]) \in ExpIdx
+               THEN {req[j].k : j \in {i \in Interferers : pc[i] = "gap" /\ held[req[i].k] = {}}}
+               ELSE {}
+
 Lock(c) ==
   /\ c \in Claimers /\ pc[c] = "lock"
   /\ \E local \in (IF Has("IndexLocalClaim") THEN {FALSE, TRUE} ELSE {FALSE}) :
        /\ \A x \in LocksOf(req[c], local) : lock[x] = ""
        /\ lock' = [x \in Idx |-> IF x \in LocksOf(req[c], local) THEN c ELSE lock[x]]
-       /\ \E w \in WalkOrders(req[c], local) : walk' = [walk EXCEPT ![c] = w]
+       /\ walk' = [walk EXCEPT ![c] = Members(IdxOf(req[c]), local)]
        /\ req' = [req EXCEPT ![c].local = local]
-       /\ used' = IF \E x \in Idx : lock[x] # "" THEN used \cup {"IndexLocalClaim"} ELSE used
+       /\ used' = used \cup (IF \E x \in Idx : lock[x] # "" THEN {"IndexLocalClaim"} ELSE {})
+                        \cup (IF Missed(c) # {} THEN {"RefileGap"} ELSE {})
   \* a walk over an expiration index does not meet a record whose save is between "taken out" and "put back"
-  /\ bad' = bad \cup (IF IdxOf(req[c]) \in ExpIdx
-                        THEN {<<"IndexOrder", c, req[i].k>> : i \in {j \in Interferers : pc[j] = "gap" /\ held[req[j].k] = {}}}
-                        ELSE {})
+  /\ bad' = bad \cup {<<"IndexOrder", c, k>> : k \in Missed(c)}
   /\ pc' = [pc EXCEPT ![c] = "walk"]
   /\ UNCHANGED <<mode, rec, ix, held, cand, res, todo, out, owner, alive, nops>>
 
 Entry(k, iv) == [k |-> k, exp |-> rec[k].exp, grp |-> rec[k].grp, st |-> rec[k].st, iv |-> iv]
 
 Visit(c) ==
-  /\ c \in Claimers /\ pc[c] = "walk" /\ walk[c] # <<>>
-  /\ \E lv \in (IF Indexed(req[c].f) /\ req[c].kind # "se" THEN LegChoices(req[c], c, Head(walk[c])) ELSE {TRUE}) :
-     LET k == Head(walk[c])
-         q == req[c]
+  /\ c \in Claimers /\ pc[c] = "walk" /\ walk[c] # {}
+  /\ \E k \in NextOf(req[c], walk[c]) :
+     \E lv \in (IF Indexed(req[c].f) /\ req[c].kind # "se" THEN LegChoices(req[c], c, k) ELSE {TRUE}) :
+     LET q == req[c]
          x == IdxOf(q)
          room == Len(res[c]) < EffN(q)
          strict == Criteria(q, rec[k])
@@ -249,7 +245,7 @@ Visit(c) ==
          take == judged /\ room
          iv == IF x \in ExpIdx THEN ix[k] ELSE k
      IN
-     /\ walk' = [walk EXCEPT ![c] = Tail(walk[c])]
+     /\ walk' = [walk EXCEPT ![c] = walk[c] \ {k}]
      /\ IF take
           THEN /\ res' = [res EXCEPT ![c] = Append(res[c], Entry(k, iv))]
                /\ held' = [held EXCEPT ![k] = IF q.local THEN held[k] \cup {x} ELSE Idx]
@@ -267,12 +263,13 @@ Visit(c) ==
 \* the rest of the walk cannot take anything once HowMany records were taken
 Unlock(c) ==
   /\ c \in Claimers /\ pc[c] = "walk"
-  /\ walk[c] = <<>> \/ Len(res[c]) >= EffN(req[c])
+  /\ walk[c] = {} \/ Len(res[c]) >= EffN(req[c])
   /\ lock' = [x \in Idx |-> IF lock[x] = c THEN "" ELSE lock[x]]
-  /\ walk' = [walk EXCEPT ![c] = <<>>]
+  /\ walk' = [walk EXCEPT ![c] = {}]
   /\ todo' = [todo EXCEPT ![c] = res[c]]
   /\ pc' = [pc EXCEPT ![c] = IF res[c] = <<>> THEN "ret" ELSE "fin"]
-  /\ UNCHANGED <<mode, rec, ix, held, req, cand, res, out, owner, alive, bad, used, nops>>
+  /\ req' = [req EXCEPT ![c].local = FALSE]
+  /\ UNCHANGED <<mode, rec, ix, held, cand, res, out, owner, alive, bad, used, nops>>
 
 Kill(k) == IF (Has("Resurrect") \/ Has("PatchResurrects")) /\ Unpersisted(k) THEN [rec[k] EXCEPT !.live = FALSE] ELSE Dead
 
@@ -416,7 +413,7 @@ Apply(i) ==
                 \* and puts it back under separate lock acquisitions (pc "gap": the record is in no expiration index)
                 /\ \E gap \in (IF Has("RefileGap") /\ r.live /\ ix[k] # 0 THEN {FALSE, TRUE} ELSE {FALSE}) :
                      /\ ix' = [ix EXCEPT ![k] = IF creates \/ gap THEN 0 ELSE ix[k]]
-                     /\ used' = IF gap THEN used \cup {"RefileGap"} ELSE used
+                     /\ used' = used       \* ("RefileGap" is recorded by the walk that misses the record, see Lock)
                      /\ pc' = [pc EXCEPT ![i] = IF gap THEN "gap"
                                                  ELSE IF (r.live /\ (nr.exp # r.exp \/ Refiles(k))) \/ (creates /\ o.e # 0) THEN "rx" ELSE "ret"]
   /\ bad' = IF ~rec[req[i].k].live /\ rec'[req[i].k].live /\ req[i].kind = "patch"
